@@ -157,6 +157,14 @@ def mlr_args(s):
         return ["count-distinct", "-u", "-f", ",".join(s["gs"])]
     if k == "count-similar":
         return ["count-similar", "-g", ",".join(s["gs"])] + (["-o", s["out"]] if s["out"] != "count" else [])
+    if k == "fill-down":
+        return ["fill-down"] + (["--all"] if s["all"] else ["-f", ",".join(s["fs"])]) + (["-a"] if s["only_if_absent"] else [])
+    if k in ("most-frequent", "least-frequent"):
+        return [k, "-f", ",".join(s["gs"])] + (["-n", str(s["maxn"])] if s["maxn"] != 10 else []) + (["-b"] if s["b"] else []) + (["-o", s["out"]] if s["out"] != "count" else [])
+    if k == "fraction":
+        return ["fraction", "-f", ",".join(s["fs"])] + (["-g", ",".join(s["gs"])] if s["gs"] else []) + (["-p"] if s["p"] else []) + (["-c"] if s["c"] else [])
+    if k == "top":
+        return ["top", "-f", ",".join(s["fs"])] + (["-g", ",".join(s["gs"])] if s["gs"] else []) + (["-n", str(s["n"])] if s["n"] != 1 else []) + (["--min"] if s["min"] else []) + (["-o", s["out"]] if s["out"] != "top_idx" else [])
     if k == "stats1":
         return (["stats1", "-a", ",".join(s["accs"]), "-f", ",".join(s["fs"])] + (["-g", ",".join(s["gs"])] if s["gs"] else [])
                 + (["-i"] if s["interp"] else []) + (["-w", str(s["w"])] if s.get("w") else []))
@@ -164,19 +172,25 @@ def mlr_args(s):
 
 
 # ------------------------------------------------------------------ definitional oracle (independent of the Coq model)
+JOINED_KEYS = [False]     # True only while asking "is the difference explained by the comma-joined grouping key alone?"
+
+
 def groups_of(recs, gs):
-    """first-appearance-ordered groups keyed by the TUPLE of exact group-by texts; records lacking a field are left out"""
-    order, members = [], {}
+    """first-appearance-ordered groups keyed by the TUPLE of exact group-by texts; records lacking a field are left out.
+    Returns [(texts of the first member, members)]."""
+    order, members, shown = [], {}, {}
     for r in recs:
         d = dict(r)
         if any(g not in d for g in gs):
             continue
         k = tuple(d[g] for g in gs)
-        if k not in members:
-            members[k] = []
-            order.append(k)
-        members[k].append(r)
-    return [(k, members[k]) for k in order]
+        kk = ",".join(k) if JOINED_KEYS[0] else k
+        if kk not in members:
+            members[kk] = []
+            shown[kk] = k
+            order.append(kk)
+        members[kk].append(r)
+    return [(shown[kk], members[kk]) for kk in order]
 
 
 def vlt(a, b):
@@ -345,6 +359,77 @@ def oracle(s, recs, rows):
                 else:
                     e.append((s["out"], ("int", len(m))))
                 exp.append(e)
+    elif k == "fill-down":
+        last = {}
+        for r in recs:
+            e = list(r)
+            names = [kk for kk, _ in r] if s["all"] else s["fs"]
+            for f in names:
+                d = dict(e)
+                present = (f in d) if s["only_if_absent"] else (f in d and d[f] != "")
+                if present:
+                    last[f] = d[f]
+                elif f in last:
+                    if f in d:
+                        e = [(kk, last[f] if kk == f else vv) for kk, vv in e]
+                    else:
+                        e.append((f, last[f]))
+            exp.append([(kk, ("text", vv)) for kk, vv in e])
+    elif k in ("most-frequent", "least-frequent"):
+        g = groups_of(recs, s["gs"])
+        counts = sorted((len(m) for _, m in g), reverse=(k == "most-frequent"))[:s["maxn"]]
+        size = {key: len(m) for key, m in g}
+        if len(rows) != len(counts):
+            return {"what": "record count", "expected": len(counts), "observed": len(rows)}
+        seen = set()
+        for i, (r, c) in enumerate(zip(rows, counts)):
+            d = dict(r)
+            key = tuple(d.get(f) for f in s["gs"])
+            want_names = s["gs"] + ([] if s["b"] else [s["out"]])
+            if [kk for kk, _ in r] != want_names and not (s["out"] in s["gs"]):
+                return {"what": "field names", "record": i, "expected": want_names, "observed": [kk for kk, _ in r]}
+            if key not in size or key in seen or size[key] != c or (not s["b"] and s["out"] not in s["gs"] and d[s["out"]] != str(c)):
+                return {"what": "i-th most/least frequent group", "record": i, "expected_count": c, "observed": r, "true_count_of_that_group": size.get(key)}
+            seen.add(key)
+        return None
+    elif k == "fraction":
+        mult = 100 if s["p"] else 1
+        suffix = ("_cumulative" if s["c"] else "") + ("_percent" if s["p"] else "_fraction")
+        sums, cum = {}, {}
+        for r in recs:
+            d = dict(r)
+            if all(g in d for g in s["gs"]):
+                key = tuple(d[g] for g in s["gs"])
+                for f in s["fs"]:
+                    if f in d:
+                        sums[(key, f)] = sums.get((key, f), 0) + numq(d[f])
+        for r in recs:
+            d = dict(r)
+            e = [(kk, ("text", vv)) for kk, vv in r]
+            if all(g in d for g in s["gs"]):
+                key = tuple(d[g] for g in s["gs"])
+                for f in s["fs"]:
+                    if f in d:
+                        num = numq(d[f]) + (cum.get((key, f), 0) if s["c"] else 0)
+                        val = ("flt", Fraction(0)) if num == 0 else ("flt", num / sums[(key, f)] * mult)
+                        name = f + suffix
+                        idx = [i for i, (kk, _) in enumerate(e) if kk == name]
+                        if idx:
+                            e[idx[0]] = (name, val)
+                        else:
+                            e.append((name, val))
+                        cum[(key, f)] = cum.get((key, f), 0) + numq(d[f])
+            exp.append(e)
+    elif k == "top":
+        contributing = [r for r in recs if all(f in dict(r) for f in s["fs"])]
+        for key, m in groups_of(contributing, s["gs"]):
+            for i in range(s["n"]):
+                e = [(f, ("text", v)) for f, v in zip(s["gs"], key)] + [(s["out"], ("int", i + 1))]
+                for f in s["fs"]:
+                    vals = sort_vals([dict(r)[f] for r in m])
+                    vals = vals if s["min"] else vals[::-1]
+                    e.append((f + "_top", ("val", vals[i]) if i < len(vals) else ("void",)))
+                exp.append(e)
     elif k == "stats1":
         def stats_fields(members):
             out = []
@@ -439,6 +524,14 @@ def gen_value(rng, profile):
         if r < 0.92:
             return ""
         return str(rng.randint(-1000, 1000))
+    if profile == "pos":
+        return str(rng.randint(1, 40)) if r < 0.5 else "%d.%s" % (rng.randint(0, 40), rng.choice(["5", "25", "75", "125", "50"]))
+    if profile == "nums":
+        if r < 0.5:
+            return str(rng.randint(-20, 40))
+        if r < 0.8:
+            return "%s%d.%s" % (rng.choice(["", "-"]), rng.randint(0, 40), rng.choice(["5", "25", "75", "125"]))
+        return str(rng.choice([2 ** 53 + 1, 2 ** 60 + 7, -(2 ** 60) - 3]) + rng.randint(0, 2))
     if profile == "text":
         if r < 0.35:
             return rng.choice(WORDS)
@@ -475,7 +568,8 @@ PLAIN = ["count", "sum", "min", "max", "mode", "antimode", "distinct_count", "nu
 
 
 def gen_case(rng, tier):
-    kind = rng.choice(["stats1", "stats1", "stats1", "stats1", "stats1p", "stats1p", "stats1w", "count", "uniq", "count-distinct-u", "count-similar"])
+    kind = rng.choice(["stats1", "stats1", "stats1", "stats1", "stats1p", "stats1p", "stats1w", "count", "uniq", "count-distinct-u", "count-similar",
+                       "fill-down", "frequent", "fraction", "top"])
     nrec = rng.choice([0, 1, 2, 3, 5, 8, 12, 20] if tier == "quick" else [0, 1, 2, 3, 5, 8, 12, 20, 40])
     gvals = rng.choice([["pan", "wye"], ["pan", "wye", "zee", ""], ["1", "1.0", "01", "pan"], ["p"], ["pan", "wye", "zee", "sky", "elk", "fox"],
                         ["x,y", "x", "y", "y,z", "z"]])
@@ -502,6 +596,23 @@ def gen_case(rng, tier):
         s = {"verb": "stats1", "accs": accs, "fs": fs, "gs": gs, "interp": interp, "profile": profile}
         if kind == "stats1w":
             s["w"] = rng.choice([1, 2, 3, 5])
+    elif kind in ("fill-down", "frequent", "fraction", "top"):
+        out = rng.choice(["count", "count", "n"])
+        if kind == "fill-down":
+            profile = "text"
+            s = {"verb": "fill-down", "all": rng.random() < 0.25, "fs": rng.sample(GKEYS + VKEYS, rng.randint(1, 3)), "only_if_absent": rng.random() < 0.4}
+        elif kind == "frequent":
+            profile = "text"
+            s = {"verb": rng.choice(["most-frequent", "least-frequent"]), "gs": gs or ["b"], "maxn": rng.choice([10, 10, 1, 2, 3]), "b": rng.random() < 0.3, "out": out}
+        elif kind == "fraction":
+            profile = "pos"
+            s = {"verb": "fraction", "fs": rng.sample(VKEYS, rng.randint(1, 2)), "gs": gs, "p": rng.random() < 0.4, "c": rng.random() < 0.4}
+        else:
+            profile = "nums"
+            s = {"verb": "top", "fs": rng.sample(VKEYS, rng.randint(1, 2)), "gs": gs, "n": rng.choice([1, 1, 2, 3, 5]), "min": rng.random() < 0.4,
+                 "out": rng.choice(["top_idx", "top_idx", "i"])}
+        s["profile"] = profile
+        s["oracle_only"] = True
     else:
         profile = "text"
         out = rng.choice(["count", "count", "n", "x"])
@@ -645,6 +756,16 @@ def probe_known(ctx):
         ctx.violation({"class": "percentile-interpolated-index-out-of-range", "how": "mlr -n put 'end{print percentiles([1,2,3,4,5],[200],{\"interpolate_linearly\":true})}'",
                        "input": "percentiles([1,2,3,4,5],[200],{\"interpolate_linearly\":true})", "observed": cls + ": " + err.decode("utf-8", "replace")[:300],
                        "expected": "the value clamped to the last element (5), as the non-interpolated form does; theorem C10_interpolated_percentile_clamps_outside_refuted"})
+    # 4. fraction: a value field first seen in a LATER record of an existing group writes into a nil map
+    recs = [[("z", "2")], [("z", "3"), ("y", "4")]]
+    s4 = {"verb": "fraction", "fs": ["z", "y"], "gs": [], "p": False, "c": False}
+    cls, rows, err = run_mlr(ctx, mlr_args(s4), recs)
+    ctx.count(("probe", "fraction-late-field"))
+    d = oracle(s4, recs, rows) if cls == "ok" else {"what": cls, "stderr": err[:300]}
+    ctx.cov["probes"]["fraction late field"] = "ok" if d is None else str(d)[:120]
+    if d is not None:
+        ctx.violation({"class": "fraction-late-field-nil-map-panic", "args": mlr_args(s4), "input": dkvp(recs, ";", ":").decode(), "observed": rows if cls == "ok" else err,
+                       "difference": d, "spec": s4, "expected": "z=2,z_fraction=0.4 / z=3,y=4,z_fraction=0.6,y_fraction=1"})
     # 3. the grouping key joins the group-by texts with ",": distinct text tuples collide
     recs = [[("a", "x,y"), ("b", "z"), ("v", "1")], [("a", "x"), ("b", "y,z"), ("v", "2")]]
     for s in ({"verb": "count", "gs": ["a", "b"], "n": False, "out": "count"},
@@ -669,10 +790,19 @@ def probe_known(ctx):
 
 
 # ------------------------------------------------------------------ witness classes of genuine defects
-def classify_witness(s, recs, diff):
+def classify_witness(s, recs, diff, rows=None):
+    """group-key-comma-collision only when the comma-joined key explains the WHOLE difference"""
     gs = s.get("gs") or []
-    if any("," in dict(r).get(g, "") for r in recs for g in gs):
-        return "group-key-comma-collision"
+    if rows is not None and s["verb"] != "dsl" and any("," in dict(r).get(g, "") for r in recs for g in gs):
+        JOINED_KEYS[0] = True
+        try:
+            explained = oracle(s, recs, rows) is None
+        except Exception:
+            explained = False
+        finally:
+            JOINED_KEYS[0] = False
+        if explained:
+            return "group-key-comma-collision"
     return "other"
 
 
@@ -681,17 +811,19 @@ def run(ctx):
     ctx.cov["rule"] = ("seeded heterogeneous record streams (0..20/40 records; group-by fields a,b from small pools incl. empty text, numeric look-alikes "
                        "1/1.0/01 and values containing the joiner ','; value fields x,y,z missing with p=0.15; profiles: small dyadic decimals+ints "
                        "(moment statistics), wide ints up to 2^61 (exact int arithmetic), text (counting/mode/min/max on strings)) x verbs count, uniq -g [-c|-n], "
-                       "count-distinct [-n|-u], count-similar, stats1 [-i] [-w n] with 1..5 accumulators incl. percentiles p0..p100 in steps of 0.5; "
+                       "count-distinct [-n|-u], count-similar, stats1 [-i] [-w n] with 1..5 accumulators incl. percentiles p0..p100 in steps of 0.5 (model + oracle); "
+                       "fill-down, most/least-frequent, fraction, top (oracle only); DSL statistics functions on numeric arrays incl. percentile(s)/median with options and p outside 0..100 (model + oracle); "
                        "compared: every output record (field names, order, values: ints/text exact, order statistics exact, floats as exact rationals within 1e-9) "
                        "between mlr and the Coq model under vm_compute, and against the Python first-principles oracle")
     ctx.cov["trusted_base"] = ["Coq 8.16.1 kernel + vm_compute", "no axioms", "python harness (generator, JSON parsing of mlr output, decimal text -> exact rational)",
                                "float arithmetic modelled exactly over Q and tied by correspondence within 1e-9 on inputs exactly representable in binary64"]
     ctx.assumptions = ["binary64 rounding is not modelled (theorems exact over Q)", "number grammar restricted to canonical ints and d+.d+ decimals in the model"]
     forbidden_gate(ctx, ["Base", "C10"])
-    ok, why = check_props(ctx, "C10/Props.v", ["C10/Harness.vo", "C10/Proofs.vo"])
-    ncases = 600 if ctx.tier == "quick" else 8000
+    ok, why = check_props(ctx, "C10/Props.v", ["C10/Harness.vo", "C10/Proofs.vo", "C10/ProofsMode.vo", "C10/ProofsMinMax.vo"])
+    ncases = 800 if ctx.tier == "quick" else 8000
     terms, meta = [], []
     oracle_bad = []
+    run_classes = set()
     gen = [gen_case(ctx.rng, ctx.tier) for _ in range(ncases)]
     with ctx.timed("impl"):
         results = run_impl_batch(ctx, [(mlr_args(s), recs) for s, recs in gen])
@@ -714,15 +846,22 @@ def run(ctx):
             ctx.dist("via:" + via)
             ctx.count((args, recs))
             if cls != "ok":
-                ctx.violation({"broken": "verb-run", "class": "verb-" + cls, "args": args, "input": dkvp(recs, ";", ":").decode(), "observed": err, "spec": s})
+                wc = "verb-" + cls
+                if s["verb"] == "fraction" and cls == "panic" and "nil map" in err:
+                    wc = "fraction-late-field-nil-map-panic"
+                if wc not in run_classes:
+                    run_classes.add(wc)
+                    ctx.violation({"broken": "verb-run", "class": wc, "args": args, "input": dkvp(recs, ";", ":").decode(), "observed": err, "spec": s,
+                                   "expected": "every record passes through with its fraction fields (a record lacking a value field is left out of that accumulation only)"})
                 continue
             d = oracle(s, recs, rows)
             if d is None and not counts_add_up(s, recs, rows):
                 d = {"what": "counts do not add up to the number of contributing records"}
             if d is not None:
                 oracle_bad.append((s, recs, rows, d))
-            terms.append(f"({coq_spec(s)},\n {coq_records(recs)},\n {coq_obs(rows)})")
-            meta.append((s, recs, rows))
+            if not s.get("oracle_only"):
+                terms.append(f"({coq_spec(s)},\n {coq_records(recs)},\n {coq_obs(rows)})")
+                meta.append((s, recs, rows))
             if i in (3, 50, 200, 400):
                 ctx.sample({"args": args, "input": dkvp(recs, ";", ":").decode(), "observed": rows})
         ctx.cov["cli_cross_checked"] = n_cli
@@ -734,12 +873,12 @@ def run(ctx):
         if oracle_bad:
             s, recs, rows, d = min(oracle_bad, key=lambda x: len(x[1]))
             ctx.violation({"broken": why, "args": mlr_args(s), "input": dkvp(recs, ";", ":").decode(), "observed": rows, "difference": d,
-                           "class": classify_witness(s, recs, d)})
+                           "class": classify_witness(s, recs, d, rows)})
         else:
             ctx.violation({"broken": why}, found_input=False)
         return
     with ctx.timed("coq_cases"):
-        bad, err = coq_eval_mismatches(ctx, "C10", "C10.Model C10.Verbs C10.Harness", "vspec * list record * list obsrec", "chk", terms, shard=100)
+        bad, err = coq_eval_mismatches(ctx, "C10", "C10.Model C10.Verbs C10.Harness", "vspec * list record * list obsrec", "chk", terms, shard=len(terms) // 2 + 1)   # at most two coqc processes at a time
     ctx.cov["correspondence"] = {"cases": len(terms), "mismatches": len(bad)}
     if err:
         ctx.violation({"broken": "correspondence-evaluation", "detail": err[-2000:]}, found_input=False)
@@ -750,19 +889,17 @@ def run(ctx):
         d = oracle(s, recs, rows)
         rep = {"broken": "correspondence C10.Harness.chk", "args": mlr_args(s), "input": dkvp(recs, ";", ":").decode(), "observed": rows, "spec": s}
         if d is not None:
-            reported += 1 if ctx.violation(dict(rep, difference=d, **{"class": classify_witness(s, recs, d)})) else 0
+            reported += 1 if ctx.violation(dict(rep, difference=d, **{"class": classify_witness(s, recs, d, rows)})) else 0
         else:
             reported += 1 if ctx.violation(dict(rep, note="model and implementation differ; the first-principles oracle agrees with the implementation"), found_input=False) else 0
         if reported >= 3:
             break
     seen_classes = set()
     for s, recs, rows, d in sorted(oracle_bad, key=lambda x: len(x[1])):
-        cl = classify_witness(s, recs, d)
-        if cl in seen_classes and cl != "other":
+        cl = classify_witness(s, recs, d, rows)
+        if cl in seen_classes:
             continue
         seen_classes.add(cl)
-        if len(seen_classes) > 4:
-            break
         ctx.violation({"broken": "first-principles oracle", "args": mlr_args(s), "input": dkvp(recs, ";", ":").decode(), "observed": rows,
                        "difference": d, "class": cl, "spec": s})
 
@@ -770,6 +907,19 @@ def run(ctx):
 def replay(ctx, path):
     obj = json.loads(Path(path).read_text())
     s = obj.get("spec")
+    if obj.get("class") in ("percentile-interpolated-index-out-of-range", "stats1-duplicate-name-double-ingest", "fraction-late-field-nil-map-panic") or (s and s.get("verb") == "dsl"):
+        ctx.cov["probes"] = {}
+        if s and s.get("verb") == "dsl":
+            bad = []
+            c = dict(s["dsl"], p=Fraction(s["dsl"]["p"]))
+            cls, lines, err = run_dsl(ctx, [c])
+            print("replay: dsl %s -> %s %s" % (s["dsl"], cls, lines))
+            ctx.count(("dsl", str(c)))
+            if cls != "ok":
+                ctx.violation(dict(obj, replayed=True, observed=err))
+            return
+        probe_known(ctx)
+        return
     if not s:
         print("replay: no spec stored")
         return
